@@ -287,66 +287,70 @@ def denoteInt (neg : Bool) (r : Nat) (ds : List Nat) : Parsed :=
   let n := natOfDigits r ds
   if n == 0 then .zero neg else .rat neg n 1
 
+/-- `0x` / `0o` / `0b` prefix (either case): the radix and what follows. -/
+def radixPrefix : List Char → Option (Nat × List Char)
+  | '0' :: x :: r =>
+    if x == 'x' || x == 'X' then some (16, r)
+    else if x == 'o' || x == 'O' then some (8, r)
+    else if x == 'b' || x == 'B' then some (2, r)
+    else none
+  | _ => none
+
+/-- NonDecimalIntegerLiteral after its prefix: one or more digits of the radix and nothing else. -/
+def parseNonDecimal (radix : Nat) (r : List Char) : Parsed :=
+  if (takeDigits radix r).1.isEmpty || !(takeDigits radix r).2.isEmpty then .nan
+  else denoteInt false radix (takeDigits radix r).1
+
+/-- StrDecimalLiteral body (sign already removed) that must match completely: `Infinity` or a
+StrUnsignedDecimalLiteral. -/
+def parseDecimalBody (neg : Bool) (body : List Char) : Parsed :=
+  if body == infinityChars then .inf neg else
+  match scanDec body with
+  | none => .nan
+  | some l => if l.rest.isEmpty then l.denote neg else .nan
+
 /-- ECMA-262 StringToNumber (StringNumericLiteral grammar, after trimming). -/
 def parseNumber (s : List Char) : Parsed :=
   let t := trim s
   if t.isEmpty then .zero false else
-  -- NonDecimalIntegerLiteral (no sign allowed)
-  let nondecimal : Option Parsed :=
-    match t with
-    | '0' :: x :: r =>
-      let radix := if x == 'x' || x == 'X' then 16 else if x == 'o' || x == 'O' then 8
-                   else if x == 'b' || x == 'B' then 2 else 0
-      if radix == 0 then none else
-      let (ds, rest) := takeDigits radix r
-      if ds.isEmpty || !rest.isEmpty then some .nan else some (denoteInt false radix ds)
-    | _ => none
-  match nondecimal with
-  | some p => p
-  | none =>
-    let (neg, _, body) := splitSign t
-    if body == infinityChars then .inf neg else
-    match scanDec body with
-    | none => .nan
-    | some l => if l.rest.isEmpty then l.denote neg else .nan
+  match radixPrefix t with
+  | some (radix, r) => parseNonDecimal radix r      -- NonDecimalIntegerLiteral (no sign allowed)
+  | none => parseDecimalBody (splitSign t).1 (splitSign t).2.2
 
-/-- parseFloat: longest prefix of the trimmed string that is a StrDecimalLiteral. -/
-def parseFloatSpec (s : List Char) : Parsed :=
-  let t := trimL s
-  let (neg, _, body) := splitSign t
+/-- The longest prefix of `body` that is `Infinity` or a StrUnsignedDecimalLiteral. -/
+def parseFloatBody (neg : Bool) (body : List Char) : Parsed :=
   if infinityChars.isPrefixOf body then .inf neg else
   match scanDec body with
   | none => .nan
   | some l => l.denote neg
 
+/-- parseFloat: longest prefix of the left-trimmed string that is a StrDecimalLiteral. -/
+def parseFloatSpec (s : List Char) : Parsed :=
+  parseFloatBody (splitSign (trimL s)).1 (splitSign (trimL s)).2.2
+
+/-- parseInt steps 8–10: the radix actually used and the text after an optional `0x`. -/
+def parseIntRadix (radix : Int) (body : List Char) : Nat × List Char :=
+  let r0 : Nat := if radix == 0 then 10 else radix.toNat
+  match (radix == 0 || radix == 16), body with
+  | true, '0' :: x :: rest => if x == 'x' || x == 'X' then (16, rest) else (r0, body)
+  | _, _ => (r0, body)
+
+/-- parseInt steps 11–16: the longest prefix of radix-R digits; none at all gives NaN. -/
+def parseIntDigits (neg : Bool) (R : Nat) (body : List Char) : Parsed :=
+  if (takeDigits R body).1.isEmpty then .nan else denoteInt neg R (takeDigits R body).1
+
 /-- parseInt(string, radix) with `radix` already ToInt32'ed. -/
 def parseIntSpec (s : List Char) (radix : Int) : Parsed :=
-  let t := trimL s
-  let (neg, _, body) := splitSign t
   if radix ≠ 0 ∧ (radix < 2 ∨ radix > 36) then .nan else
-  let strip := radix == 0 || radix == 16
-  let r0 : Nat := if radix == 0 then 10 else radix.toNat
-  let (r, body) :=
-    match strip, body with
-    | true, '0' :: x :: rest => if x == 'x' || x == 'X' then (16, rest) else (r0, body)
-    | _, _ => (r0, body)
-  let (ds, _) := takeDigits r body
-  if ds.isEmpty then .nan else denoteInt neg r ds
+  let sb := splitSign (trimL s)
+  let rb := parseIntRadix radix sb.2.2
+  parseIntDigits sb.1 rb.1 rb.2
 
 /-- NumericLiteral of the source grammar (no sign, no separators, no BigInt suffix, no legacy octal). -/
 def parseLiteral (s : List Char) : Parsed :=
-  match s with
-  | '0' :: x :: r =>
-    let radix := if x == 'x' || x == 'X' then 16 else if x == 'o' || x == 'O' then 8
-                 else if x == 'b' || x == 'B' then 2 else 0
-    if radix == 0 then
-      match scanDec s with
-      | some l => if l.rest.isEmpty then l.denote false else .nan
-      | none => .nan
-    else
-      let (ds, rest) := takeDigits radix r
-      if ds.isEmpty || !rest.isEmpty then .nan else denoteInt false radix ds
-  | _ =>
+  match radixPrefix s with
+  | some (radix, r) => parseNonDecimal radix r
+  | none =>
     match scanDec s with
     | some l => if l.rest.isEmpty then l.denote false else .nan
     | none => .nan
